@@ -285,3 +285,136 @@ pub fn replay(case: &J) -> Result<(), String> {
         Some(v) => Err(v.what.clone()),
     }
 }
+
+/// A character source that lies about (or truthfully reports) an extreme length.
+struct Hinted<I> {
+    inner: I,
+    hint: (usize, Option<usize>),
+}
+
+impl<I: Iterator> Iterator for Hinted<I> {
+    type Item = I::Item;
+    fn next(&mut self) -> Option<I::Item> {
+        self.inner.next()
+    }
+    fn size_hint(&self) -> (usize, Option<usize>) {
+        self.hint
+    }
+}
+
+/// The metadata of the source is part of the parser's environment: `size_hint()` may be huge
+/// (an endless or very long stream) or useless; the outcome must be the one of the plain source.
+/// Also truly endless sources, which must be rejected at the first offending character.
+pub fn source_hints(rep: &mut Report) {
+    use json_syntax::{Parse, Value};
+    use std::convert::Infallible;
+    let docs = documents();
+    let hints: [(usize, Option<usize>); 6] = [(usize::MAX, None), (usize::MAX, Some(usize::MAX)), (1 << 62, Some(1 << 62)), (usize::MAX / 24 + 1, None), (isize::MAX as usize, None), (0, Some(0))];
+    let mut t = Tally::new();
+    for (name, bytes, _) in &docs {
+        let text = match std::str::from_utf8(bytes) {
+            Ok(s) if s.len() <= 2000 => s,
+            _ => continue,
+        };
+        let want = observed(text, STRICT).0;
+        for hint in hints {
+            t.evals += 1;
+            let got = explore::guard(|| {
+                let src = Hinted {
+                    inner: text.chars().map(Ok::<char, Infallible>),
+                    hint,
+                };
+                match Value::parse_utf8_with(src, STRICT) {
+                    Ok((v, m)) => Out::Ok(v, map_of(&m)),
+                    Err(e) => ek(&e).map(Out::Err).unwrap_or_else(Out::Broken),
+                }
+            })
+            .unwrap_or_else(|p| Out::Broken(format!("panic: {p}")));
+            if got != want {
+                t.violation("", format!("{name}: from a source whose size_hint() is {hint:?} the result is {}, from the plain source {}", got.brief().chars().take(120).collect::<String>(), want.brief().chars().take(120).collect::<String>()), json!({"kind": "source-hint", "document": name, "hint": format!("{hint:?}")}));
+            }
+        }
+        t.nontrivial(&name);
+    }
+    // endless sources
+    let endless: Vec<(&str, Box<dyn Fn() -> Box<dyn Iterator<Item = char>>>, EK)> = vec![
+        ("an endless run of x", Box::new(|| Box::new(std::iter::repeat('x'))), EK::Unexpected(0, Some('x'))),
+        ("[1] repeated for ever", Box::new(|| Box::new("[1] ".chars().cycle())), EK::Unexpected(4, Some('['))),
+        ("] then endless spaces", Box::new(|| Box::new(std::iter::once(']').chain(std::iter::repeat(' ')))), EK::Unexpected(0, Some(']'))),
+        ("\"a\" then endless quotes", Box::new(|| Box::new("\"a\"".chars().chain(std::iter::repeat('"')))), EK::Unexpected(3, Some('"'))),
+    ];
+    for (name, make, want) in &endless {
+        t.evals += 1;
+        let got = explore::guard(|| match Value::parse_infallible_utf8(make()) {
+            Ok((v, m)) => Out::Ok(v, map_of(&m)),
+            Err(e) => ek(&e).map(Out::Err).unwrap_or_else(Out::Broken),
+        })
+        .unwrap_or_else(|p| Out::Broken(format!("panic: {p}")));
+        if got != Out::Err(want.clone()) {
+            t.violation("", format!("{name}: expected Err({want:?}), got {}", got.brief()), json!({"kind": "source-hint", "document": name}));
+        }
+    }
+    t.outcome("sources with extreme size hints");
+    rep.bounds["source-hints"] = json!({"documents": docs.len(), "hints": hints.len(), "endless_sources": endless.len()});
+    rep.absorb(t);
+}
+
+/// Re-entrancy: the character source is the caller's code and may itself parse JSON on the same
+/// thread while the outer parse is suspended inside `next()` - at every pull position of the
+/// outer document. Both parses must give what they give when run alone.
+pub fn reentrancy(rep: &mut Report) {
+    use json_syntax::{Parse, Value};
+    let outers = ["\"abc\"", "{\"key\":\"value\",\"k2\":[1,\"s\\n\"]}", "[\"a-string-longer-than-sixteen-bytes\",12.5e3,null]", "[1,", "{\"a\":", "\"ab", "[[[[\"x\"]]]]", "\"\\uD83D\\uDE00\""];
+    let inners = ["\"inner\"", "{\"k\":[1,\"s\"],\"k\":\"t\"}", "[", "12", "[\"another-string-longer-than-sixteen-bytes\"]"];
+    let norm = |r: Result<(Value, json_syntax::CodeMap), json_syntax::parse::Error>| match r {
+        Ok((v, m)) => Out::Ok(v, map_of(&m)),
+        Err(e) => ek(&e).map(Out::Err).unwrap_or_else(Out::Broken),
+    };
+    let mut t = Tally::new();
+    let mut cases = 0usize;
+    for outer in outers {
+        let outer_want = norm(Value::parse_str(outer));
+        let n = outer.chars().count();
+        for inner in inners {
+            let inner_want = norm(Value::parse_str(inner));
+            for at in 0..=n {
+                cases += 1;
+                t.evals += 2;
+                let r = explore::guard(|| {
+                    let mut pulled = 0usize;
+                    let mut nested: Option<Out> = None;
+                    let mut chars = outer.chars();
+                    let src = std::iter::from_fn(|| {
+                        if pulled == at && nested.is_none() {
+                            nested = Some(match explore::guard(|| norm(Value::parse_str(inner))) {
+                                Ok(o) => o,
+                                Err(p) => Out::Broken(format!("panic: {p}")),
+                            });
+                        }
+                        pulled += 1;
+                        chars.next()
+                    });
+                    let o = norm(Value::parse_infallible_utf8(src));
+                    (o, nested)
+                });
+                let case = json!({"kind": "reentrancy", "outer": outer, "inner": inner, "nested_parse_at_pull": at});
+                match r {
+                    Ok((o, nested)) => {
+                        if o != outer_want {
+                            t.violation("", format!("the outer parse of {outer} gives {} when its source parses {inner} at pull {at}; alone it gives {}", o.brief(), outer_want.brief()), case.clone());
+                        }
+                        match nested {
+                            Some(x) if x == inner_want => {}
+                            Some(x) => t.violation("", format!("the nested parse of {inner} (started from the source of an outer parse of {outer}, at pull {at}) gives {}; alone it gives {}", x.brief(), inner_want.brief()), case),
+                            None => {} // the outer parser stopped before that pull
+                        }
+                    }
+                    Err(p) => t.violation("", format!("outer parse panicked: {p}"), case),
+                }
+            }
+        }
+    }
+    t.outcome("re-entrant parse from the character source");
+    rep.bounds["reentrancy"] = json!({"outer_documents": outers.len(), "inner_documents": inners.len(), "cases": cases, "positions": "every pull of the outer source"});
+    rep.absorb(t);
+}
